@@ -440,6 +440,14 @@ pub trait Cfg<'a, I: InK<'a>>: Sized + 'static {
     fn ctx_iter(_kind: u8, _a: BP<'a, I, Self>, _item: BP<'a, I, Self>, _sink: &Sink, _pr: Probes) -> BP<'a, I, Self> {
         unsupported("ctx_iter")
     }
+    /// an iterable chain one of whose two links is a context provider (`ctx_first`: the provider is the first link)
+    fn ctx_chain<P, PO>(_other: P, _ctx_first: bool, _kind: u8, _a: BP<'a, I, Self>, _item: BP<'a, I, Self>, _sink: &Sink, _pr: Probes) -> BP<'a, I, Self>
+    where
+        PO: 'a,
+        P: IterParser<'a, I, Val, Ex<'a, I, Self>> + Parser<'a, I, PO, Ex<'a, I, Self>> + Clone + 'a,
+    {
+        unsupported("ctx_chain")
+    }
 }
 
 pub struct CEmpty;
@@ -559,6 +567,36 @@ impl<'a, I: InK<'a>> Cfg<'a, I> for CRichCx {
                     apply_sink_chain::<I, Self, _, _>(a.ignore_with_ctx($rep), sink, pr)
                 } else {
                     apply_sink_chain::<I, Self, _, _>(a.then_with_ctx($rep), sink, pr)
+                }
+            };
+        }
+        match kind % 3 {
+            0 => go!(item.repeated()),
+            1 => go!(item.repeated().configure(|cfg, ctx: &char| cfg.at_most(ast::count_of(*ctx)))),
+            _ => go!(item.repeated().configure(|cfg, ctx: &char| cfg.exactly(ast::count_of(*ctx)))),
+        }
+    }
+    fn ctx_chain<P, PO>(other: P, ctx_first: bool, kind: u8, a: BP<'a, I, Self>, item: BP<'a, I, Self>, sink: &Sink, pr: Probes) -> BP<'a, I, Self>
+    where
+        PO: 'a,
+        P: IterParser<'a, I, Val, Ex<'a, I, Self>> + Parser<'a, I, PO, Ex<'a, I, Self>> + Clone + 'a,
+    {
+        let a = a.map(|v| ast::ctx_of(&v));
+        macro_rules! link {
+            ($prov:expr) => {
+                if ctx_first {
+                    apply_sink_chain::<I, Self, _, _>($prov.then(other), sink, pr)
+                } else {
+                    apply_sink_chain::<I, Self, _, _>(other.then($prov), sink, pr)
+                }
+            };
+        }
+        macro_rules! go {
+            ($rep:expr) => {
+                if kind / 3 == 0 {
+                    link!(a.ignore_with_ctx($rep))
+                } else {
+                    link!(a.then_with_ctx($rep))
                 }
             };
         }
@@ -828,6 +866,7 @@ macro_rules! with_part {
                 let $q = build::<$I, $C>(a, $pr).map(ast::items_of).into_iter();
                 $k
             }
+            Part::Ctx(..) => unsupported("a context-provider link in this position"),
         }
     };
 }
@@ -835,6 +874,9 @@ macro_rules! with_part {
 fn build_chain<'a, I: InK<'a>, C: Cfg<'a, I>>(parts: &[Part], sink: &Sink, pr: Probes) -> BP<'a, I, C> {
     match parts {
         [p] => with_part!(I, C, p, pr, |a| apply_sink_chain::<I, C, _, _>(a, sink, pr)),
+        [Part::Ctx(k, a, it)] => C::ctx_iter(*k, build::<I, C>(a, pr), build::<I, C>(it, pr), sink, pr),
+        [p, Part::Ctx(k, a, it)] => with_part!(I, C, p, pr, |o| C::ctx_chain(o, false, *k, build::<I, C>(a, pr), build::<I, C>(it, pr), sink, pr)),
+        [Part::Ctx(k, a, it), q] => with_part!(I, C, q, pr, |o| C::ctx_chain(o, true, *k, build::<I, C>(a, pr), build::<I, C>(it, pr), sink, pr)),
         [p, q] => with_part!(I, C, p, pr, |a| with_part!(I, C, q, pr, |c| apply_sink_chain::<I, C, _, _>(a.then(c), sink, pr))),
         _ => unsupported("iter_chain with more than two links"),
     }
@@ -940,6 +982,13 @@ fn build0<'a, I: InK<'a>, C: Cfg<'a, I>>(g: &G, pr: Probes) -> BP<'a, I, C> {
         TryMap(a) => build::<I, C>(a, pr).try_map(move |v, span| if ast::pred(&v) { Ok(v) } else { Err(cerr(span, "TM")) }).fin(),
         TryMapWith(a) => build::<I, C>(a, pr)
             .try_map_with(move |v, e| if ast::pred(&v) { Ok(v) } else { Err(cerr(e.span(), "TW")) })
+            .fin(),
+        StGuard(a) => build::<I, C>(a, pr)
+            .try_map_with(move |v, e| match e.state().obs() {
+                Some((c, _)) if c % 2 == 1 => Err(cerr(e.span(), "SG")),
+                Some(_) => Ok(v),
+                None => unsupported("state_guard without the tracking inspector"),
+            })
             .fin(),
         OrNot(a) => build::<I, C>(a, pr).or_not().map(|o| Val::O(o.map(bx))).fin(),
         Not(a) => build::<I, C>(a, pr).not().map(|_| Val::U).fin(),
